@@ -49,6 +49,7 @@
 #include <cctype>
 #include <cstdlib>
 #include <cmath>
+#include <limits>
 #include <string>
 
 namespace mp {
@@ -2134,21 +2135,24 @@ class NLProblemBuilder {
     // See D.M.Gay, Hooking Your Solver to AMPL; and Writing .NL Files,
     // and, e.g.,
     // github.com/jump-dev/MathOptInterface.jl/blob/master/src/FileFormats/NL/README.md
+    /// The header counts come from the file: compute in a wider type
+    /// and let DoAddVars() reject inconsistent (negative) block sizes
+    typedef long long LL;
     int k=0;                             // current block position
     const int num_nl_vars = std::max(h.num_nl_vars_in_cons,
                                      h.num_nl_vars_in_objs);
     if (num_nl_vars) {
-      DoAddVars(h.num_nl_vars_in_both - h.num_nl_integer_vars_in_both,
+      DoAddVars(LL(h.num_nl_vars_in_both) - h.num_nl_integer_vars_in_both,
               var::CONTINUOUS, k);
       DoAddVars(h.num_nl_integer_vars_in_both,
               var::INTEGER, k);
-      DoAddVars(h.num_nl_vars_in_cons -
-              (h.num_nl_vars_in_both + h.num_nl_integer_vars_in_cons),
+      DoAddVars(LL(h.num_nl_vars_in_cons) -
+              (LL(h.num_nl_vars_in_both) + h.num_nl_integer_vars_in_cons),
               var::CONTINUOUS, k);
       DoAddVars(h.num_nl_integer_vars_in_cons,
               var::INTEGER, k);
-      int num_nl_vars_in_objs_only =
-          std::max(0, h.num_nl_vars_in_objs - h.num_nl_vars_in_cons);
+      LL num_nl_vars_in_objs_only =
+          std::max(LL(0), LL(h.num_nl_vars_in_objs) - h.num_nl_vars_in_cons);
       if (num_nl_vars_in_objs_only) {
         DoAddVars(num_nl_vars_in_objs_only - h.num_nl_integer_vars_in_objs,
                 var::CONTINUOUS, k);
@@ -2157,19 +2161,23 @@ class NLProblemBuilder {
       }
     }
     MP_ASSERT_ALWAYS(num_nl_vars == k, "NLProblemBuilder: num_nl_vars mismatch");
-    DoAddVars(h.num_vars -
-            (num_nl_vars +
+    DoAddVars(LL(h.num_vars) -
+            (LL(num_nl_vars) +
              h.num_linear_integer_vars + h.num_linear_binary_vars),
             var::CONTINUOUS, k);
-    DoAddVars(h.num_linear_integer_vars + h.num_linear_binary_vars,
+    DoAddVars(LL(h.num_linear_integer_vars) + h.num_linear_binary_vars,
             var::INTEGER, k);
     MP_ASSERT_ALWAYS(h.num_vars == k, "NLProblemBuilder: num_vars mismatch");
   }
 
-  /// DoAddVars: update counter \a k
-  void DoAddVars(int n, var::Type t, int& k) {
-    builder_.AddVars(n, t);
-    k += n;
+  /// DoAddVars: update counter \a k.
+  /// @param n: block size computed from the header counts
+  void DoAddVars(long long n, var::Type t, int& k) {
+    if (n < 0 || n > std::numeric_limits<int>::max() - k)
+      MP_RAISE("NLProblemBuilder: inconsistent variable counts "
+               "in the NL header");
+    builder_.AddVars(int(n), t);
+    k += int(n);
   }
 
   /// objno(). virtual, so that SolverNLHandler can override
